@@ -265,16 +265,16 @@ func newEvent(msg, syscall *auparse.AuditMessage) *Event {
 		return event
 	}
 
+	// data is the message's cached map (see AuditMessage.Data) so it must not
+	// be modified here.
 	if result, found := data["result"]; found {
 		event.Result = result
-		delete(data, "result")
 	} else {
 		event.Result = "unknown"
 	}
 
 	if ses, found := data["ses"]; found {
 		event.Session = ses
-		delete(data, "ses")
 	}
 
 	if auid, found := data["auid"]; found {
@@ -289,6 +289,10 @@ func newEvent(msg, syscall *auparse.AuditMessage) *Event {
 	event.Tags, _ = msg.Tags()
 
 	for k, v := range data {
+		if k == "result" || k == "ses" {
+			// Stored in event.Result and event.Session.
+			continue
+		}
 		if strings.HasSuffix(k, "uid") || strings.HasSuffix(k, "gid") {
 			addSubjectAttribute(k, v, event)
 		} else if strings.HasPrefix(k, "subj_") {
@@ -427,7 +431,6 @@ func addExecveRecord(execve *auparse.AuditMessage, event *Event) {
 			return
 		}
 
-		delete(data, key)
 		args = append(args, arg)
 	}
 
